@@ -2,6 +2,7 @@
 import raftfamily
 import c19
 import rsmchecks
+import logstore
 
 CHECKS = {}
 CHECKS["RAFT"] = raftfamily.check_all
@@ -10,6 +11,9 @@ for _p in ("C02", "C03", "C06", "C07", "C18"):
 CHECKS["C19"] = c19.check
 CHECKS["C05"] = rsmchecks.check_c05
 CHECKS["C08"] = rsmchecks.check_c08
+
+CHECKS["C09"] = logstore.check_c09
+CHECKS["C10"] = logstore.check_c10
 
 
 def _c07(prop, tier, replay_path):
